@@ -52,7 +52,7 @@ func writeValue(e *Encoder, d *decodeState, ifWriteTag bool, tagName string) err
 		return err
 
 	default:
-		panic(phasePanicMsg)
+		return d.error("unexpected token")
 	}
 }
 
@@ -91,7 +91,7 @@ func writeCompoundPayload(e *Encoder, d *decodeState) error {
 			return d.error(d.scan.errContext)
 		}
 		if d.opcode != scanBeginLiteral {
-			panic(phasePanicMsg)
+			return d.error("unexpected token in Compound")
 		}
 		// read tag name
 		start := d.readIndex()
@@ -114,7 +114,7 @@ func writeCompoundPayload(e *Encoder, d *decodeState) error {
 			return d.error(d.scan.errContext)
 		}
 		if d.opcode != scanCompoundTagName {
-			panic(phasePanicMsg)
+			return d.error("unexpected token in Compound")
 		}
 
 		if err := writeValue(e, d, true, tagName); err != nil {
@@ -132,7 +132,7 @@ func writeCompoundPayload(e *Encoder, d *decodeState) error {
 			break
 		}
 		if d.opcode != scanCompoundValue {
-			panic(phasePanicMsg)
+			return d.error("unexpected token in Compound")
 		}
 	}
 	_, err := e.w.Write([]byte{TagEnd})
@@ -206,7 +206,7 @@ func writeListOrArray(e *Encoder, d *decodeState, ifWriteTag bool, tagName strin
 			}
 		}
 		if d.opcode != scanListValue && d.opcode != scanEndValue { // TAG_List<TAG_String>
-			panic(phasePanicMsg)
+			return tagType, d.error("unexpected token in List")
 		}
 		var tagType byte
 		for {
@@ -237,7 +237,7 @@ func writeListOrArray(e *Encoder, d *decodeState, ifWriteTag bool, tagName strin
 				break
 			}
 			if d.opcode != scanListValue {
-				panic(phasePanicMsg)
+				return tagType, d.error("unexpected token in List")
 			}
 			d.scanWhile(scanSkipSpace)
 			start = d.readIndex()
@@ -284,7 +284,7 @@ func writeListOrArray(e *Encoder, d *decodeState, ifWriteTag bool, tagName strin
 				break
 			}
 			if d.opcode != scanListValue {
-				panic(phasePanicMsg)
+				return tagType, d.error("unexpected token in List")
 			}
 			// read '['
 			d.scanNext()
@@ -329,7 +329,7 @@ func writeListOrArray(e *Encoder, d *decodeState, ifWriteTag bool, tagName strin
 				break
 			}
 			if d.opcode != scanListValue {
-				panic(phasePanicMsg)
+				return tagType, d.error("unexpected token in List")
 			}
 			// read '{'
 			d.scanNext()
@@ -409,7 +409,7 @@ func writeArray(e, e2 *Encoder, d *decodeState, elemType byte, count *int, buf *
 			break
 		}
 		if d.opcode != scanListValue {
-			panic(phasePanicMsg)
+			return d.error("unexpected token in Array")
 		}
 		d.scanWhile(scanSkipSpace) // ,
 	}
@@ -459,21 +459,28 @@ func (d *decodeState) scanWhile(op int) {
 // TAG_String, TAG_Int, TAG_Float, ... etc.
 // so the returned value is one of string, int32, float32 ...
 func parseLiteral(literal []byte) (byte, any, error) {
+	if len(literal) == 0 {
+		return 0, nil, &SyntaxError{Message: "empty literal"}
+	}
 	switch literal[0] {
 	case '"', '\'': // Quoted String
 		var sb strings.Builder
 		sb.Grow(len(literal) - 2)
-		for i := 1; ; i++ {
+		for i := 1; i < len(literal); i++ {
 			c := literal[i]
 			switch c {
 			case literal[0]:
 				return TagString, sb.String(), nil
 			case '\\':
 				i++
+				if i >= len(literal) {
+					return 0, nil, &SyntaxError{Message: "unterminated escape in quoted string"}
+				}
 				c = literal[i]
 			}
 			sb.WriteByte(c)
 		}
+		return 0, nil, &SyntaxError{Message: "unterminated quoted string"}
 	default:
 		strlen := len(literal)
 		integer := true
@@ -546,7 +553,7 @@ func parseLiteral(literal []byte) (byte, any, error) {
 			return TagString, string(literal), nil
 		}
 	}
-	panic(phasePanicMsg)
+	return 0, nil, &SyntaxError{Message: "invalid literal"}
 }
 
 func (d *decodeState) error(msg string) *SyntaxError {
